@@ -155,6 +155,40 @@ fn oracle(c: &Case, st: &mut Stats) -> Result<(), String> {
     }
     st.class("key-adopted-by-busy-server");
   }
+  // freshness must also hold between threads of one process (clients are often worker threads)
+  {
+    let input = c.input.0.clone();
+    let per_thread: Vec<Vec<([u8; 32], [u8; 32])>> = std::thread::scope(|sc| {
+      let hs: Vec<_> = (0..3)
+        .map(|_| {
+          let input = &input;
+          sc.spawn(move || {
+            (0..2)
+              .map(|_| {
+                let (b, r) = Client::blind(input);
+                let sc: Scalar = r.into();
+                (*b.as_bytes(), sc.to_bytes())
+              })
+              .collect::<Vec<_>>()
+          })
+        })
+        .collect();
+      hs.into_iter().map(|h| h.join().expect("blind thread")).collect()
+    });
+    let mut scalars: BTreeSet<[u8; 32]> = BTreeSet::new();
+    for (ti, v) in per_thread.iter().enumerate() {
+      for (k, (b, r)) in v.iter().enumerate() {
+        st.evals(1);
+        if !blinded_seen.insert(*b) {
+          return Err(format!("blinded request number {k} of thread {ti} equals a request made elsewhere in this process for the same input: {}", hex::encode(b)));
+        }
+        if !scalars.insert(*r) {
+          return Err(format!("two threads drew the same blinding scalar (call {k} of thread {ti})"));
+        }
+      }
+    }
+    st.class("cross-thread-freshness");
+  }
   for i in 0..finals_by_server.len() {
     for j in i + 1..finals_by_server.len() {
       if finals_by_server[i] == finals_by_server[j] {
